@@ -430,3 +430,57 @@ Fixpoint run_rounds (packed pnew fallback : bool) (s : cstate) (rounds : list (l
       let '(oss, s2) := run_rounds packed pnew fallback s1 rest in
       (os :: oss, s2)
   end.
+
+(* ------------------------------------------------------------------------------------------------ *)
+(* Part W: the per-waiter tail of HandleWithResponseWriter_ after singleflight returned a result    *)
+(*         that is not in the cache:  u := respMsg.Copy(); u.Id = own id; WriteMsg(u)  (writer packs) *)
+(* ------------------------------------------------------------------------------------------------ *)
+(* Messages are heap objects: the leader's result is object 0, shared by every waiter.  One step = one of
+   copy / stamp the ID / enter WriteMsg / the writer packs the object it was handed.  [copy = false] is the
+   variant that stamps and writes the shared object itself. *)
+Inductive wpc :=
+| WStart
+| WCopied (o : nat)                  (* holds object o (its private copy, or the shared object) *)
+| WStamped (o : nat)                 (* o.Id = own id done *)
+| WInWrite (o : nat)                 (* inside WriteMsg(o), not yet packed *)
+| WDone (o : nat) (packed : message).
+
+Record wstate := {
+  w_heap : nat -> message;
+  w_next : nat;                      (* next free object *)
+  w_ws : list (N * wpc)              (* per waiter: its client's transaction ID, program counter *)
+}.
+
+Definition hupd (h : nat -> message) (o : nat) (m : message) : nat -> message :=
+  fun o' => if Nat.eqb o' o then m else h o'.
+
+Definition winit (m0 : message) (ids : list N) : wstate :=
+  {| w_heap := fun _ => m0; w_next := 1; w_ws := map (fun id => (id, WStart)) ids |}.
+
+Definition wstep (copy : bool) (s : wstate) (i : nat) : wstate :=
+  match nth_error (w_ws s) i with
+  | None => s
+  | Some (id, pc) =>
+      match pc with
+      | WStart =>
+          if copy then
+            {| w_heap := hupd (w_heap s) (w_next s) (w_heap s 0%nat); w_next := S (w_next s);
+               w_ws := set_nth (w_ws s) i (id, WCopied (w_next s)) |}
+          else
+            {| w_heap := w_heap s; w_next := w_next s; w_ws := set_nth (w_ws s) i (id, WCopied 0%nat) |}
+      | WCopied o =>
+          {| w_heap := hupd (w_heap s) o (with_id (w_heap s o) id); w_next := w_next s;
+             w_ws := set_nth (w_ws s) i (id, WStamped o) |}
+      | WStamped o =>
+          {| w_heap := w_heap s; w_next := w_next s; w_ws := set_nth (w_ws s) i (id, WInWrite o) |}
+      | WInWrite o =>
+          {| w_heap := w_heap s; w_next := w_next s; w_ws := set_nth (w_ws s) i (id, WDone o (w_heap s o)) |}
+      | WDone _ _ => s
+      end
+  end.
+
+Definition wrun (copy : bool) (m0 : message) (ids : list N) (sched : list nat) : wstate :=
+  fold_left (wstep copy) sched (winit m0 ids).
+
+Definition wobj (pc : wpc) : option nat :=
+  match pc with WStart => None | WCopied o | WStamped o | WInWrite o | WDone o _ => Some o end.
